@@ -351,6 +351,21 @@ const BOUNDARY_INTS: [i128; 22] = [
     -65537, -4294967297, -9223372036854775808, -18446744073709551616,
 ];
 fn gen_value(ctx: &mut Ctx, depth: u32) -> Value {
+    // every 25th structured value is DEEP: arrays, one-entry maps and tags nested 10 … 200 levels (ciborium's own limit
+    // is 256): what the library can encode it must be able to decode
+    static CALLS: std::sync::atomic::AtomicUsize = std::sync::atomic::AtomicUsize::new(0);
+    if depth >= 1 {
+        let c = CALLS.fetch_add(1, std::sync::atomic::Ordering::Relaxed);
+        if c % 25 == 24 {
+            let levels = [10usize, 30, 31, 32, 33, 40, 64, 100, 128, 200][c / 25 % 10];
+            let mut v = Value::Integer(7.into());
+            for l in 0..levels {
+                v = match (l + c / 25) % 3 { 0 => Value::Array(vec![v]), 1 => Value::Map(vec![(Value::Text("k".into()), v)]), _ => Value::Tag(1004, Box::new(v)) };
+            }
+            ctx.count("value:deeply-nested");
+            return v;
+        }
+    }
     let k = if depth == 0 { ctx.rng.gen_range(0..7) } else { ctx.rng.gen_range(0..10) };
     match k {
         0 => int(*BOUNDARY_INTS.choose(&mut ctx.rng).unwrap()),
